@@ -345,7 +345,10 @@ pub fn shrink_tfb(c: &TfbCase) -> Vec<TfbCase> {
 }
 
 fn shuttle_bin() -> std::path::PathBuf {
-    crate::driver::root().join("target-shuttle/release/tfbshuttle")
+    match std::env::var("VERIF_SHUTTLE_BIN") {
+        Ok(p) => std::path::PathBuf::from(p),
+        Err(_) => crate::driver::root().join("target-shuttle/release/tfbshuttle"),
+    }
 }
 
 /// Runs a batch of shuttle schedules in the `tfbshuttle` binary.
